@@ -1,4 +1,5 @@
 import DaskModel.Model.NormalForm
+import DaskModel.Model.NormalFormRec
 import DaskModel.Lemmas.NormalForm
 import DaskModel.Lemmas.Determinism
 import DaskModel.Lemmas.ReprInj
@@ -237,5 +238,73 @@ example : tokPre [.list [.str "a', 'b"]] ≠ tokPre [.list [.str "a", .str "b"]]
   have := preimage_injective _ _ (by decide) (by decide) h
   cases this with
   | list hl => cases hl with | cons h1 h2 => cases h2
+
+/-! ## recursive containers -/
+
+mutual
+/-- the `_SEEN` bookkeeping does not change the normal form of values without back references, whatever the depth
+    and the enclosing containers: `("__seen", i)` only ever stands for a genuine cycle -/
+theorem rnorm_eq_norm (stack : List Frame) (d : Nat) : ∀ (r : RVal) (v : Val), toVal r = some v → rnorm stack d r = norm v
+  | .val w, v, h => by simp only [toVal, Option.some.injEq] at h; subst h; rfl
+  | .backref _, _, h => by simp [toVal] at h
+  | .list xs, v, h => by
+    simp only [toVal] at h
+    cases hl : toValL xs with
+    | none => simp [hl] at h
+    | some vs =>
+      simp only [hl, Option.map_some, Option.some.injEq] at h
+      subst h
+      simp only [rnorm, norm, rnormL_eq_normL _ _ xs vs hl]
+  | .tuple xs, v, h => by
+    simp only [toVal] at h
+    cases hl : toValL xs with
+    | none => simp [hl] at h
+    | some vs =>
+      simp only [hl, Option.map_some, Option.some.injEq] at h
+      subst h
+      simp only [rnorm, norm, rnormL_eq_normL _ _ xs vs hl]
+  | .dict kvs, v, h => by
+    simp only [toVal] at h
+    cases hl : toValP kvs with
+    | none => simp [hl] at h
+    | some vs =>
+      simp only [hl, Option.map_some, Option.some.injEq] at h
+      subst h
+      simp only [rnorm, norm, rnormP_eq_normP _ _ kvs vs hl]
+theorem rnormL_eq_normL (stack : List Frame) (d : Nat) : ∀ (rs : List RVal) (vs : List Val), toValL rs = some vs →
+    rnormL stack d rs = normL vs
+  | [], vs, h => by simp only [toValL, Option.some.injEq] at h; subst h; rfl
+  | r :: rs, vs, h => by
+    simp only [toValL] at h
+    cases h1 : toVal r with
+    | none => simp [h1] at h
+    | some v =>
+      cases h2 : toValL rs with
+      | none => simp [h1, h2] at h
+      | some vs' =>
+        simp only [h1, h2, Option.some.injEq] at h
+        subst h
+        simp only [rnormL, normL, rnorm_eq_norm stack d r v h1, rnormL_eq_normL stack d rs vs' h2]
+theorem rnormP_eq_normP (stack : List Frame) (d : Nat) : ∀ (rs : List (Val × RVal)) (vs : List (Val × Val)),
+    toValP rs = some vs → rnormP stack d rs = normP vs
+  | [], vs, h => by simp only [toValP, Option.some.injEq] at h; subst h; rfl
+  | (k, r) :: rs, vs, h => by
+    simp only [toValP] at h
+    cases h1 : toVal r with
+    | none => simp [h1] at h
+    | some v =>
+      cases h2 : toValP rs with
+      | none => simp [h1, h2] at h
+      | some vs' =>
+        simp only [h1, h2, Option.some.injEq] at h
+        subst h
+        simp only [rnormP, normP, rnorm_eq_norm stack d r v h1, rnormP_eq_normP stack d rs vs' h2]
+end
+
+/-- a list that contains itself and a list that contains a copy of itself containing itself are told apart:
+    the back reference names the depth at which the container was entered -/
+example : rnorm [] 1 (.list [.val (.int 1), .backref 0])
+        ≠ rnorm [] 1 (.list [.val (.int 1), .list [.val (.int 1), .backref 1]]) := by
+  simp [rnorm, rnormL, seenRef, norm]
 
 end Dask.C12
